@@ -407,7 +407,7 @@ func verifCanary(label string, cond bool) {}
 //@ func (*PKCS1v15).Verify
 //@   props C09
 //@   requires s != nil
-//@   assigns *
+//@   assigns rsa.verifiedKey(signature), rsa.verifiedMsg(signature), rsa.verifiedMsgLen(signature), rsa.verifiedSigOff(signature), rsa.verifiedSigLen(signature)
 //@   ensures [C09:rsa-verify] result == nil ==> s.PublicKey != nil && rsa.verifiedKey(signature) == s.PublicKey &&
 //@           rsa.verifiedMsg(signature) == ref(msg) && rsa.verifiedMsgLen(signature) == len(msg) &&
 //@           rsa.verifiedSigOff(signature) == off(signature) && rsa.verifiedSigLen(signature) == len(signature)
@@ -416,7 +416,7 @@ func verifCanary(label string, cond bool) {}
 //@ func (*RSAPSS).Verify
 //@   props C09
 //@   requires s != nil
-//@   assigns *
+//@   assigns rsa.verifiedKey(signature), rsa.verifiedMsg(signature), rsa.verifiedMsgLen(signature), rsa.verifiedSigOff(signature), rsa.verifiedSigLen(signature)
 //@   ensures [C09:rsa-verify] result == nil ==> s.PublicKey != nil && rsa.verifiedKey(signature) == s.PublicKey &&
 //@           rsa.verifiedMsg(signature) == ref(msg) && rsa.verifiedMsgLen(signature) == len(msg) &&
 //@           rsa.verifiedSigOff(signature) == off(signature) && rsa.verifiedSigLen(signature) == len(signature)
@@ -429,3 +429,22 @@ func verifCanary(label string, cond bool) {}
 //@           hmacKey(ref(d)) == ref(s.Secret) && hmacKeyLen(ref(d)) == len(s.Secret) &&
 //@           hmacMsg(ref(d)) == ref(msg) && hmacMsgLen(ref(d)) == len(msg) && hmac.sameBytes(d, signature)
 //@   canary ensures [C09:canary-hmac-never-accepts] result != nil
+
+// The RSA signers: the signature is made with this signer's key over a digest of the WHOLE message, and
+// the signer keeps nothing between calls (frame: nothing of the signer is written; a retained hash state
+// would make the second signature one over both messages).
+//@ func (*PKCS1v15).Signature
+//@   props C09 C15
+//@   requires s != nil
+//@   assigns nothing
+//@   ensures [C09:rsa-sign] result1 == nil ==> s.PrivateKey != nil && rsa.signedKey(result0) == s.PrivateKey &&
+//@           rsa.signedMsg(result0) == ref(msg) && rsa.signedMsgLen(result0) == len(msg)
+//@   ensures [C09:error-nothing] result1 != nil ==> len(result0) == 0
+
+//@ func (*RSAPSS).Signature
+//@   props C09 C15
+//@   requires s != nil
+//@   assigns nothing
+//@   ensures [C09:rsa-sign] result1 == nil ==> s.PrivateKey != nil && rsa.signedKey(result0) == s.PrivateKey &&
+//@           rsa.signedMsg(result0) == ref(msg) && rsa.signedMsgLen(result0) == len(msg)
+//@   ensures [C09:error-nothing] result1 != nil ==> len(result0) == 0
